@@ -51,6 +51,7 @@ Absent == V("absent", 0, "plain", 0)
 Attr(k, l, m, r, ns) == [kind |-> k, loc |-> l, mode |-> m, rule |-> r, nest |-> ns]
 
 NumKinds == {"int", "uint", "float"} \cup WideKinds
+DefaultedContainerNests == {"elem", "mapkey", "mapval"}
 QueryMapNests == {"mapkey", "mapval", "mapval_elem", "whole_mapval", "mapparams"}
 FloatKinds == {"float", "float32"}
 WFAttr(a) ==
@@ -73,7 +74,8 @@ WFAttr(a) ==
   /\ (a.rule \in {"pattern", "format"} => a.kind = "string")
   /\ (a.rule = "enum" => a.kind \in {"int", "string"})
   /\ (a.rule \in {"cminlen", "cmaxlen"} => a.nest \in {"elem", "mapval", "whole_elem", "whole_mapval"})
-  /\ (a.mode = "default" => a.nest \in {"direct", "alias"} /\ a.kind # "bytes")
+  \* a Default on a list / map attribute (DefaultedContainerNests): in bodies only
+  /\ (a.mode = "default" => (a.nest \in {"direct", "alias"} \/ (a.nest \in DefaultedContainerNests /\ a.loc = "body")) /\ a.kind # "bytes")
   /\ (a.nest \in Whole => a.mode = "required" /\ a.kind \notin {"any"} /\ a.loc \in {"body", "query", "header", "path"})
   /\ (a.nest \in {"whole_elem", "whole_mapval"} /\ a.loc # "body" => (a.nest = "whole_elem" /\ a.loc \in {"query", "header"}) \/ (a.nest = "whole_mapval" /\ a.loc = "query"))
   \* a required non-pointer field cannot be told from its zero value on the Go side; nothing to exclude,
@@ -121,15 +123,18 @@ ValsOf(a) ==
 
 \* can the caller leave the attribute unset?  (Go: pointer field, nil slice or nil map)
 CanBeAbsent(a) == a.mode \in {"optional", "treq"} \/ (a.mode = "required" /\ a.nest \in {"elem", "mapkey", "mapval", "mapval_elem", "mapparams", "nested"} \cup Deep) \/ (a.mode = "required" /\ a.kind = "bytes")
+                  \/ (a.mode = "default" /\ a.nest \in DefaultedContainerNests)       \* (a nil slice / map: the default stands in)
 \* an empty string cannot be a path segment, and neither can "nothing": the envelope does not send one (the caller of a
 \* method with a path parameter supplies it, whatever the payload type says)
 PayloadVals(a) == {v \in ValsOf(a) : ~(a.loc = "path" /\ v.s = "empty") /\ (v.s = "huge" => a.loc = "body")} \cup (IF CanBeAbsent(a) /\ a.nest \notin Whole /\ a.loc # "path" THEN {Absent} ELSE {})
+                  \* a defaulted list / map that the caller sets to EMPTY on purpose (not nil): whatever the rule
+                  \cup (IF a.mode = "default" /\ a.nest \in DefaultedContainerNests THEN {V(a.kind, 3, "plain", 0)} ELSE {})
 \* what no generated encoder writes but any peer can send: the (last) object of a nested user type lacks its required inner
 \* attribute (s = "nofield"; cn entries, the last one broken).  HTTPTransport enumerates these on top of PayloadVals.
 NoFieldNests == {"nested", "elem_nested", "mapval_nested"}
 NoFieldVals(a) == IF a.nest \in NoFieldNests /\ a.loc = "body" /\ a.kind # "any" THEN {V(a.kind, 0, "nofield", IF a.nest = "nested" THEN 1 ELSE 2)} ELSE {}
 
-DefaultOf(a) == CASE a.kind = "int" -> V("int", 3, "plain", 1)
+LeafDefault(a) == CASE a.kind = "int" -> V("int", 3, "plain", 1)
                   [] a.kind = "uint" -> V("uint", 3, "plain", 1)
                   [] a.kind = "float" -> V("float", 3, "half", 1)
                   [] a.kind \in {"int32", "int64", "uint32", "uint64"} -> V(a.kind, 3, "plain", 1)
@@ -137,6 +142,9 @@ DefaultOf(a) == CASE a.kind = "int" -> V("int", 3, "plain", 1)
                   [] a.kind = "bool" -> V("bool", 1, "plain", 1)
                   [] a.kind = "string" -> V("string", 3, "plain", 1)
                   [] OTHER -> Absent
+\* the default of a list / map of values is two unremarkable entries, the last one the kind's usual default leaf (two, so that it
+\* satisfies a MinLength(Lo) on the collection); of a map keyed by the leaf: one entry
+DefaultOf(a) == IF a.nest \in {"elem", "mapval"} /\ LeafDefault(a) # Absent THEN [LeafDefault(a) EXCEPT !.cn = 2] ELSE LeafDefault(a)
 IsZero(v) == v # Absent /\ v.n = 0 /\ v.s \in {"plain", "empty"} /\ v.cls # "bytes"
 
 \* ---------------------------------------------------------------- the rules (the oracle of C04)
